@@ -19,6 +19,59 @@ macro_rules! same {
     };
 }
 
+/// Consume the set through the other `Iterator` entry points (a type may specialise any of
+/// them): all must describe the same ascending sequence as repeated `next()`.
+fn consume_variants(ctx: &mut Ctx, x: BitBoard, want: &[u8], case: &dyn Fn() -> serde_json::Value) -> Result<(), Violation> {
+    let idx = |s: Square| s.to_index() as u8;
+    let n = want.len();
+    let collected: Vec<u8> = x.collect::<Vec<Square>>().into_iter().map(idx).collect();
+    let mut via_for: Vec<u8> = vec![];
+    for s in x {
+        via_for.push(idx(s));
+    }
+    let mut via_for_each: Vec<u8> = vec![];
+    x.for_each(|s| via_for_each.push(idx(s)));
+    let via_fold: Vec<u8> = x.fold(vec![], |mut v, s| {
+        v.push(idx(s));
+        v
+    });
+    let via_map: Vec<u8> = x.map(idx).collect();
+    for (name, got) in [("collect", &collected), ("for loop", &via_for), ("for_each", &via_for_each), ("fold", &via_fold), ("map+collect", &via_map)] {
+        if got.as_slice() != want {
+            ctx.fail("bitboard:iteration", format!("{} yields {:?}, members are {:?}", name, got, want), case())?;
+        }
+    }
+    if x.count() != n {
+        ctx.fail("bitboard:iteration-count", format!("Iterator::count() = {}, members: {}", x.count(), n), case())?;
+    }
+    if x.last().map(idx) != want.last().copied() || x.min().map(idx) != want.first().copied() || x.max().map(idx) != want.last().copied() {
+        ctx.fail("bitboard:iteration", format!("last/min/max = {:?}/{:?}/{:?}, members are {:?}", x.last(), x.min(), x.max(), want), case())?;
+    }
+    for k in [0usize, n / 2, n.saturating_sub(1), n, n + 1] {
+        let mut it = x;
+        let got = it.nth(k).map(idx);
+        if got != want.get(k).copied() {
+            ctx.fail("bitboard:iteration", format!("nth({}) = {:?}, expected {:?}", k, got, want.get(k)), case())?;
+        }
+        // what follows nth(k) is the rest of the sequence
+        let rest: Vec<u8> = it.map(idx).collect();
+        let expect: &[u8] = if k + 1 <= n { &want[k + 1..] } else { &[] };
+        if rest.as_slice() != expect {
+            ctx.fail("bitboard:iteration", format!("after nth({}) the iterator yields {:?}, expected {:?}", k, rest, expect), case())?;
+        }
+    }
+    let skipped: Vec<u8> = x.skip(n / 3).take(5).map(idx).collect();
+    let expect: Vec<u8> = want.iter().copied().skip(n / 3).take(5).collect();
+    if skipped != expect {
+        ctx.fail("bitboard:iteration", format!("skip/take yields {:?}, expected {:?}", skipped, expect), case())?;
+    }
+    let (lo, hi) = x.size_hint();
+    if lo > n || hi.map_or(false, |h| h < n) {
+        ctx.fail("bitboard:iteration-count", format!("size_hint() = ({}, {:?}) excludes the actual number of members {}", lo, hi, n), case())?;
+    }
+    Ok(())
+}
+
 pub fn check_triple(ctx: &mut Ctx, a: u64, b: u64, c: u64) -> Result<(), Violation> {
     ctx.eval();
     let case = || json!({"a": format!("{:#018x}", a), "b": format!("{:#018x}", b), "c": format!("{:#018x}", c)});
@@ -48,6 +101,7 @@ pub fn check_triple(ctx: &mut Ctx, a: u64, b: u64, c: u64) -> Result<(), Violati
         ctx.fail("bitboard:iteration", "iterator not exhausted / not empty after the last member".into(), case())?;
     }
     same!(ctx, "bitboard:popcnt", x.popcnt() as usize, want.len(), case(), "popcnt");
+    consume_variants(ctx, x, &want, &case)?;
     if a != 0 {
         same!(ctx, "bitboard:to_square", x.to_square().to_index() as u8, want[0], case(), "to_square (lowest member)");
     }
@@ -102,6 +156,7 @@ pub fn check_singletons(ctx: &mut Ctx) -> Result<(), Violation> {
         same!(ctx, "bitboard:from_maybe_square", BitBoard::from_maybe_square(Some(q)), Some(bb), case(), "from_maybe_square(Some)");
         let mut it = bb;
         same!(ctx, "bitboard:iteration", (it.next(), it.next()), (Some(q), None::<Square>), case(), "iteration of singleton");
+        consume_variants(ctx, bb, &[s], &case)?;
         same!(ctx, "bitboard:reverse_colors", bb.reverse_colors().0, 1u64 << ((7 - s / 8) * 8 + s % 8), case(), "reverse_colors of singleton");
     }
     same!(ctx, "bitboard:from_maybe_square", BitBoard::from_maybe_square(None), None::<BitBoard>, json!({}), "from_maybe_square(None)");
@@ -138,7 +193,7 @@ pub fn run(cfg: &Cfg) -> i32 {
     engine::finish(
         report,
         EvidenceSpec {
-            rule: "cases = all 64 singletons (from_square / to_square / set / from_maybe_square / iteration / reverse_colors) and generated operand triples (uniform u64, ranks, files, diagonals, checkerboard, empty, full, 1-3 bits, all but 1-3 bits, and-/or-mixtures); for each triple iteration order and termination, popcnt, to_square, all 4 forms of & | ^, both forms of &= |= ^= and !, distributivity / De Morgan / xor-associativity, reverse_colors (rank flip, involution) and == are compared with u64 / BTreeSet arithmetic. evaluations = singletons + triples. Non-trivial = operand pair with non-empty intersection and non-empty difference; distinct = operand fingerprints.".into(),
+            rule: "cases = all 64 singletons (from_square / to_square / set / from_maybe_square / iteration / reverse_colors) and generated operand triples (uniform u64, ranks, files, diagonals, checkerboard, empty, full, 1-3 bits, all but 1-3 bits, and-/or-mixtures); for each triple iteration order and termination (through next(), for, collect, for_each, fold, map, count, last, min, max, nth, skip/take; size_hint bounds), popcnt, to_square, all 4 forms of & | ^, both forms of &= |= ^= and !, distributivity / De Morgan / xor-associativity, reverse_colors (rank flip, involution) and == are compared with u64 / BTreeSet arithmetic. evaluations = singletons + triples. Non-trivial = operand pair with non-empty intersection and non-empty difference; distinct = operand fingerprints.".into(),
             assumptions: vec!["u64 arithmetic of the Rust standard library".into()],
             trusted_base: vec!["proptest 1.11".into()],
             exhaustive: None,
